@@ -50,7 +50,8 @@ MANIFEST = dict(
          "one-at-a-time histories the events delivered for each operation must equal the per-operation contract written "
          "from the property text; soundness: in arbitrary (also unpaced) histories every delivered event must be explained "
          "by an operation of the history (path in scope, kind, moved src/dst of one entry, synthetic only for descendants); "
-         "theorems in coq/Props/C03.v over the model.",
+         "theorems in coq/Props/C03.v over the model."
+         " A burst WITH directory operations, the arrival shape `mkdir p; <mkdir / touch strictly below p>` read in one read (recursive watch, p in scope, fixed _recursive_simulate, no fault): every delivered event is justified by an operation of the burst (C03_burst_arrival_sound at the read_batch/delivered level, C03_burst_arrival_pipeline: sound_along on the Pipeline model); contract equality does not hold there - the stream follows the walk order and a touch below p contributes no opened/closed events.",
     note="Trusted: as C01. Contract details fixed here: `touch` = create+open+close (created, parent modified, opened, closed, "
          "parent modified), chmod of a watched directory is reported once per watch that sees it, a directory replaced by a "
          "rename additionally gets the kernel's IN_ATTRIB as DirModified; comparison up to coalescing of adjacent identical "
